@@ -422,7 +422,7 @@ def depth2(ctx, k, K, depth3=False):
             for kk in kinds_of(r):
                 for d2, slot in by_kind.get(kk, []):
                     cid = 'C17/d2/%s/r%d->%s@%d' % (d1.name, ri, d2.name, slot)
-                    if not ctx.want(cid):
+                    if not (ctx.want(cid) or (depth3 and ctx.only and ctx.only.startswith(cid + '/->'))):
                         continue
                     # rebuild the history so that every case starts from fresh, unshared values
                     a1 = fresh(d1)
@@ -440,7 +440,8 @@ def depth2(ctx, k, K, depth3=False):
                     nstates += 1
                     if depth3 and ok2 and r2 is not None and alph.thin(cid, 'thorough', 16, 16):
                         res2 = list(r2) if isinstance(r2, tuple) else [r2]
-                        live2 = live + [('arg%d of %s' % (i, d2.name), a, snap(a)) for i, a in enumerate(a2) if i not in d2.consts and not (d2.mut and i == 0)]
+                        # values the second call is documented to change (the receiver of a mutating method) are re-read afterwards
+                        live2 = [(l, v, s0) for l, v, s0 in live if not (d2.mut and v is a2[0])] + [('arg%d of %s' % (i, d2.name), a, snap(a)) for i, a in enumerate(a2) if i not in d2.consts and not (d2.mut and i == 0)]
                         live2.append(('result of %s' % d2.name, r2, snap(r2)))
                         for k3 in kinds_of(res2[0]):
                             for d3, slot3 in by_kind.get(k3, [])[::7]:
